@@ -15,7 +15,8 @@ ENTRY = {
              'them. The model terms equal the terms translated from the source (C05_*_tie by reflexivity). NOT PROVED and not provable by this '
              'technique: indistinguishability of ciphertexts, unpredictability/uniqueness of os.urandom output, what lengths, object counts, '
              'timing and access patterns reveal. Explored: every written byte of real histories in 4 (quick) / 36 (thorough) cipher x hash '
-             'configurations lifted to terms = the model\'s items; secrecy predicate evaluated on the lifted terms; concrete nonces pairwise '
+             'configurations (run with the cache disabled / private / shared with an unencrypted or differently encrypted sibling repository, a third '
+             'of them with debug logging enabled) lifted to terms = the model\'s items; secrecy predicate evaluated on the lifted terms; concrete nonces pairwise '
              'distinct; taint scan for every known secret in raw/hex/base64 forms.'),
     'note': ('Claimed as proof of the symbolic statement; the cryptographic content of the property (IND-CPA style secrecy, randomness of nonces) '
              'is an assumption about AES-GCM/ChaCha20-Poly1305/BLAKE2/scrypt and os.urandom, named here and in the evidence notes. "Hash hides '
